@@ -110,6 +110,7 @@ PROPERTIES["C07"] = {
           params={"quick": {"n": 5, "partial_lens": [0, 2, 255]}, "thorough": {"n": 8, "partial_lens": [0, 1, 2, 254, 255]}},
           budget={"quick": 400, "thorough": 3000},
           required_covers=["c07.data.delivered", "c07.data.closed"]),
+        dict(PROPERTIES["C06"]["mirsym"][0], name="c07_plain_security_phase"),
         M("c07_maxmsgsize_limit", "d_c07", "maxmsgsize_limit",
           "engine in Data phase, MAXMSGSIZE = any limit >= 28 (symbolic i64), one frame header with any flags/any 8- or 64-bit length: refused iff length > limit, nothing but the header buffered",
           budget={"quick": 120, "thorough": 300},
@@ -323,6 +324,10 @@ PROPERTIES["C05"] = {
            "thorough": "first 7 deliveries free"},
           params={"quick": {"decisions": 5}, "thorough": {"decisions": 7}}, budget={"quick": 500, "thorough": 3300},
           required_covers=["c05.pair.converged", "c05.pair.refused"]),
+        M("c05_fragmented_peers", "d_c04", "cut_independence",
+          "the four honest peer transcripts of C04 (including a ZMTP/2.0 peer) delivered with a cut at every position: handshake outcome and reported peer type / identity independent of the fragmentation",
+          params={"quick": {"cuts": 1}, "thorough": {"cuts": 1}}, budget={"quick": 400, "thorough": 600},
+          required_covers=["c04.cut-inside-handshake"]),
         M("c05_compat_v3_vs_v2", "d_c05", "compat_v3_vs_v2",
           "local type: each of the 8 implemented socket types; peer type: each of the 11 ZMTP wire names; ZMTP/3 READY path vs ZMTP/2.0 greeting path vs the ZeroMQ pairing table",
           budget={"quick": 200, "thorough": 300}, required_covers=["c05.compat.accepted", "c05.compat.refused"]),
@@ -370,7 +375,7 @@ PROPERTIES["C13"]["manifest"]["technique"] += "; interleaving BMC (z3) of wait_f
 PROPERTIES["C13"]["manifest"]["text"] += " A sender in wait_for_connection never stays parked once a peer has been added, for every interleaving of the check / subscribe / add / notify operations."
 PROPERTIES["C13"]["manifest"]["note"] = "NOT claimed: skipping of full peers in route_message, fairness over time on live sockets, SNDTIMEO interplay."
 
-HOOK_COMMITS = ["e6aec85", "b7f56e8", "904f401"]
+HOOK_COMMITS = ["e6aec85", "b7f56e8", "904f401", "7ede9e5"]
 
 NOT_APPLICABLE = {
     "C09": "cancellation needs the drop glue of the suspended coroutine; rustc's -Zunpretty=mir dump does not contain coroutine drop shims, Kani cannot run async socket code, and the socket-level futures of the eight socket types reach into SocketCore/tokio; what the interleaving check can say (ready_tx.send never blocks, so ReadyPipeSender::send can only be cancelled at the pipe-full await) is reported under C08, not claimed here",
